@@ -39,22 +39,18 @@ Proof. exact r_item_ok_iff. Qed.
 Theorem C17_reader_safe : forall k buf, safe (r_item k buf).
 Proof. exact r_item_safe. Qed.
 
-(* Binary.ReadMessageBegin.  The full statement (every cause, the negative name length included)
-   is kept visible; it is REFUTED by the message "80 01 00 01 ff ff ff ff" (version 1, name length
-   -1), which the code reports as INVALID_DATA ("buf too small") although the stream reader and
-   Binary.ReadString report NEGATIVE_SIZE for the same bytes *)
-Definition C17_message_begin_statement : Prop := msg_err_typed_statement.
-
-Theorem C17_message_begin_statement_refuted : ~ C17_message_begin_statement.
-Proof. exact msg_err_typed_refuted. Qed.
-
-(* for every other cause the type id is the one the cause demands (truncation => INVALID_DATA, bad
-   version word => BAD_VERSION); for a negative name length it is INVALID_DATA *)
-Theorem C17_message_begin_partial : forall buf c,
+(* Binary.ReadMessageBegin: every error carries the type id its cause demands — truncation =>
+   INVALID_DATA, bad version word => BAD_VERSION, negative name length => NEGATIVE_SIZE.  (The last
+   clause was refuted by the code as first found — "80 01 00 01 ff ff ff ff" was reported as
+   INVALID_DATA — and holds since the repair /repo 0c7ba6f; the witness is a corpus regression.) *)
+Theorem C17_message_begin_err_typed : forall buf c,
   r_message_begin buf = Err c ->
-  exists cz, ref_msg buf = Some cz /\
-    (cz <> CNeg -> etype c = cause_type cz) /\ (cz = CNeg -> etype c = thrift_INVALID_DATA).
-Proof. exact msg_err_typed_partial. Qed.
+  exists cz, ref_msg buf = Some cz /\ etype c = cause_type cz.
+Proof. exact msg_err_typed. Qed.
+
+Theorem C17_message_begin_negative_name_regression :
+  r_message_begin [128; 1; 0; 1; 255; 255; 255; 255] = Err e_neg_size /\ etype e_neg_size = thrift_NEGATIVE_SIZE.
+Proof. exact msg_negative_name_regression. Qed.
 
 Theorem C17_message_begin_ok_iff : forall buf, ref_msg buf = None <-> exists v, r_message_begin buf = Ok v.
 Proof. exact msg_ok_iff. Qed.
